@@ -228,4 +228,23 @@ theorem C12_records_order (cfg : ECfg) (src : Str) (ex : Exc) (tok : Nat × Nat)
   obtain ⟨a, b⟩ := p
   rfl
 
+/-- **C12 (failure inside a slot filler)**: when the filler of a slot raises with its `__token` set, the record that is
+appended is the *filler's* position — the failing expression — and the macro function continues to unwind with its own
+`__token` cleared, so that its handler (`macroRaise`) adds nothing of its own: the message names the failing expression
+and then the `use-macro` call site, not the last expression the macro happened to evaluate (the behaviour of /repo after
+the D-12d fix) -/
+theorem C12_filler_records_failing_expression (cfg : ECfg) (al : List (Str × Val)) (f : Nat) (nm : Tok) (node : Node)
+    (s s' : RState) (cid : Nat) (cl : Closure) (ex : Exc) (t : Nat × Nat)
+    (h : lookupAssoc s.env.topFrame.slotFns (mangleName nm.str) = some (some cid))
+    (hc : s.closures[cid]? = some cl)
+    (hb : eval cfg cl.al f cl.node (fillerEnter cl s) = .raised ex s')
+    (ht : s'.x.token = some t) :
+    ∃ s'', eval cfg al (f + 1) (.defineSlot nm node) s = .raised ex s'' ∧ s''.errs = s'.errs.push t ∧
+      s''.x.token = none ∧ (fillerEnter cl s).x.token = none ∧
+      (∀ caller, (macroRaise caller s'').errs = s''.errs) := by
+  refine ⟨fillerRaise s s', ?_, ?_, rfl, rfl, ?_⟩
+  · simp [eval, h, hc, hb]
+  · simp [fillerRaise, ht]
+  · intro caller; simp [macroRaise, fillerRaise]
+
 end ChamVerif
